@@ -466,6 +466,7 @@ pub fn build_world_with(property: &str, tier: &str, seed: u64, tweak: impl FnOnc
 	}
 	if property == "C08" || (property == "C02" && w.cfg.trunk >= 85) {
 		build_compaction_reorg_scenario(&mut w);
+		build_horizon_block_scenario(&mut w);
 	}
 	Ok(w)
 }
@@ -508,6 +509,10 @@ pub fn chainsim_case(property: &str, tier: &str, seed: u64, case: u64) -> CaseRe
 	let scenario_ops: Option<Vec<Op>> = compaction_reorg_ops(&world);
 	if scenario_ops.is_some() {
 		res.probe("compaction_reorg_scenario_built");
+	}
+	let scenario2_ops: Option<Vec<Op>> = scenario_ops_of(&world, &world.scenario2);
+	if scenario2_ops.is_some() {
+		res.probe("horizon_block_scenario_built");
 	}
 	if property == "C04" {
 		match check_retarget(&world) {
@@ -585,6 +590,12 @@ pub fn chainsim_case(property: &str, tier: &str, seed: u64, case: u64) -> CaseRe
 		let (mut ops, reorders) = chainsim::gen_schedule(&world, &scfg, &mut rr);
 		if run == 0 {
 			if let Some(so) = &scenario_ops {
+				ops = so.clone();
+				scfg.n_nodes = 1;
+			}
+		}
+		if run == 1 {
+			if let Some(so) = &scenario2_ops {
 				ops = so.clone();
 				scfg.n_nodes = 1;
 			}
@@ -672,26 +683,79 @@ fn build_compaction_reorg_scenario(world: &mut World) {
 	world.scenario = sc;
 }
 
+/// Second scenario for the long worlds: block X creates a sibling pair of outputs; exactly
+/// `horizon` blocks later S spends both; compaction runs while S is head (X is then the horizon
+/// block: what it created and a later block spent must survive compaction, because a rewind of S
+/// brings it back); a competing branch from S's parent then overtakes S.
+/// `world.scenario2` = [number of blocks before S, S, F1, F2, ..].
+fn build_horizon_block_scenario(world: &mut World) {
+	let mut base = world.winner();
+	if world.blocks[base].height < 82 {
+		return;
+	}
+	let x = match world.extend_with_spend(base, "any", 0) {
+		Some(x) => x,
+		None => return,
+	};
+	let xh = world.blocks[x].height;
+	base = x;
+	for _ in 0..(global_horizon() - 1) {
+		base = match world.extend_empty(base, 0) {
+			Ok(b) => b,
+			Err(_) => return,
+		};
+	}
+	let n_before = world.blocks.len();
+	let s = match world.extend_with_pair_spend(base, xh) {
+		Some(s) => s,
+		None => return,
+	};
+	if world.blocks[s].height != xh + global_horizon() {
+		return;
+	}
+	let mut fork = vec![];
+	let mut f = base;
+	let mut guard = 0;
+	while (fork.is_empty() || world.blocks[f].total_difficulty <= world.blocks[s].total_difficulty) && guard < 6 {
+		f = match world.extend_empty(f, 8) {
+			Ok(b) => b,
+			Err(_) => return,
+		};
+		fork.push(f);
+		guard += 1;
+	}
+	if world.blocks[f].total_difficulty <= world.blocks[s].total_difficulty {
+		return;
+	}
+	let mut sc = vec![n_before, s];
+	sc.extend(fork);
+	world.scenario2 = sc;
+}
+
 fn global_horizon() -> u64 {
 	grin_core::global::cut_through_horizon() as u64
 }
 
 /// Ops of the scenario: the generated tree parents first, H, compact, restart, the fork, validate.
 fn compaction_reorg_ops(world: &World) -> Option<Vec<Op>> {
-	if world.scenario.len() < 3 {
+	scenario_ops_of(world, &world.scenario)
+}
+
+fn scenario_ops_of(world: &World, scenario: &[usize]) -> Option<Vec<Op>> {
+	if scenario.len() < 3 {
 		return None;
 	}
-	let n_before = world.scenario[0];
+	let n_before = scenario[0];
 	let mut ops: Vec<Op> = vec![];
 	let mut order: Vec<usize> = (1..n_before).collect();
 	order.sort_by_key(|i| (world.blocks[*i].height, *i));
 	for id in &order {
 		ops.push(Op::Block { node: 0, id: *id });
 	}
-	ops.push(Op::Block { node: 0, id: world.scenario[1] });
+	ops.push(Op::Block { node: 0, id: scenario[1] });
 	ops.push(Op::Compact { node: 0 });
 	ops.push(Op::Restart { node: 0 });
-	for id in &world.scenario[2..] {
+	for id in &scenario[2..] {
 		ops.push(Op::Block { node: 0, id: *id });
 	}
 	ops.push(Op::Validate { node: 0, fast: false });
